@@ -206,7 +206,14 @@ class SamplerRun:
         self.call_no += 1
         self.out.ev('S sample call %d' % self.call_no)
         try:
-            res = self.sampler.sample(n_samples, bar=False, **objective)
+            if self.wl.get('bar'):
+                # the default of sample(): a progress bar is printed while the run proceeds
+                import contextlib
+                import io
+                with contextlib.redirect_stdout(io.StringIO()):
+                    res = self.sampler.sample(n_samples, bar=True, **objective)
+            else:
+                res = self.sampler.sample(n_samples, bar=False, **objective)
         except StepCap:
             self.out.inconclusive = True
             self.out.ev('S step cap')
@@ -415,6 +422,8 @@ def gen_rejection_workload(tape, spec, pil, extra_outputs=True, allow_threshold=
     wl['output_names'] = outs
     if tape.chance('target_is_node', 1, 4):
         wl['target_form'] = 'node'      # Rejection(model['d'], ...) instead of (model, 'd', ...)
+    if tape.chance('progress_bar', 1, 5):
+        wl['bar'] = True
     if (allow_default if allow_failure is None else allow_failure) and \
             tape.chance('simulator_failure', 1, 8):
         wl['fail_bi'] = tape.int('failing_batch', 0, 3)
@@ -449,6 +458,8 @@ def gen_smc_workload(tape, spec, pil):
         wl['output_names'] += list(spec['extras'])
     if tape.chance('target_is_node', 1, 4):
         wl['target_form'] = 'node'
+    if tape.chance('progress_bar', 1, 5):
+        wl['bar'] = True
     rounds = tape.int('rounds', 2, 4)
     if tape.chance('smc_quantiles', 1, 2) or len(pil) < 10:
         # 1 (int) and 1.0 are legal quantiles: "no larger than the largest positively weighted
